@@ -17,7 +17,7 @@ def ref_tasks(prop, tier, seed, kf):
         r = core.Report(prop, tier, seed)
         import contracts.body_refs as cbr
         engine_b.discharge(r, kf, [cr.add_dependencies_contract(), cr.parameter_from_reference_contract(),
-                                   cr.parameter_from_data_contract(), cr.update_parameters_contract(),
+                                   cr.parameter_from_data_contract(), cr.update_parameters_contract(), cr.update_schemas_contract(),
                                    __import__("contracts.add_parameters", fromlist=["x"]).add_parameters_contract(),
                                    __import__("contracts.responses_c", fromlist=["x"]).response_contract(),
                                    cbr.resolve_contract()], prop, tier, seed)
